@@ -1,7 +1,9 @@
-use crate::{Error, ErrorKind, Graph};
+use crate::{Edge, Error, ErrorKind, Graph};
+use itertools::Itertools;
 use std::collections::{HashMap, HashSet};
 use std::fmt::Display;
 use std::hash::Hash;
+use std::sync::Arc;
 
 /**
 Determines if the union of communities contains all nodes in the graph.
@@ -87,50 +89,102 @@ where
         });
     }
     // compute four variables depending on whether or not the graph is directed and `weighted` is true/false
+    // (weighted sums are taken in a fixed order: the stores iterate in hash order, floating-point
+    // addition is not associative, and the result must not change from call to call)
     let (out_degree, in_degree, m, norm) = match graph.specs.directed {
         true => {
             let (outd, ind) = match weighted {
-                true => (
-                    graph.get_weighted_out_degree_for_all_nodes().unwrap(),
-                    graph.get_weighted_in_degree_for_all_nodes().unwrap(),
-                ),
+                true => get_weighted_degrees_in_fixed_order(graph),
                 false => (
                     convert_values_to_f64::<T, A>(graph.get_out_degree_for_all_nodes().unwrap()),
                     convert_values_to_f64::<T, A>(graph.get_in_degree_for_all_nodes().unwrap()),
                 ),
             };
-            let m: f64 = outd.values().sum();
+            let m: f64 = sum_in_key_order(&outd);
             let norm = (1.0 / m).powf(2.0);
             (outd, ind, m, norm)
         }
         false => {
             let deg = match weighted {
-                true => graph.get_weighted_degree_for_all_nodes(),
+                true => get_weighted_degrees_in_fixed_order(graph).0,
                 false => convert_values_to_f64::<T, A>(graph.get_degree_for_all_nodes()),
             };
-            let deg_sum: f64 = deg.values().sum();
+            let deg_sum: f64 = sum_in_key_order(&deg);
             let m = deg_sum / 2.0;
             let norm = (1.0 / deg_sum).powf(2.0);
             (deg.clone(), deg, m, norm)
         }
     };
     let community_contribution = |community: &HashSet<T>| {
-        let comm_vec: Vec<T> = community.iter().cloned().collect();
+        let comm_vec: Vec<T> = community.iter().cloned().sorted().collect();
         let subgraph = graph.get_subgraph(&comm_vec);
-        let subgraph_edges = subgraph.get_all_edges();
         let subgraph_edges_weight = match weighted {
-            true => subgraph_edges.iter().map(|e| e.weight).sum(),
-            false => subgraph_edges.len() as f64,
+            true => get_edges_in_fixed_order(&subgraph)
+                .iter()
+                .map(|e| e.weight)
+                .sum(),
+            false => subgraph.get_all_edges().len() as f64,
         };
-        let out_degree_sum: f64 = community.iter().map(|n| out_degree.get(n).unwrap()).sum();
+        let out_degree_sum: f64 = comm_vec.iter().map(|n| out_degree.get(n).unwrap()).sum();
         let in_degree_sum = match graph.specs.directed {
-            true => community.iter().map(|n| in_degree.get(n).unwrap()).sum(),
+            true => comm_vec.iter().map(|n| in_degree.get(n).unwrap()).sum(),
             false => out_degree_sum,
         };
         subgraph_edges_weight / m
             - resolution.unwrap_or(1.0) * out_degree_sum * in_degree_sum * norm
     };
     Ok(communities.iter().map(community_contribution).sum())
+}
+
+/// The edges of `graph` ordered by their endpoints (parallel edges keep their stored order).
+pub(crate) fn get_edges_in_fixed_order<T, A>(graph: &Graph<T, A>) -> Vec<&Arc<Edge<T, A>>>
+where
+    T: Hash + Eq + Clone + Ord + Display + Send + Sync,
+    A: Clone + Send + Sync,
+{
+    let mut edges = graph.get_all_edges();
+    edges.sort_by(|a, b| (&a.u, &a.v).cmp(&(&b.u, &b.v)));
+    edges
+}
+
+/// Weighted (out-degree, in-degree) of every node, each summed over the edges in a fixed order.
+/// For an undirected graph both maps hold the weighted degree (a self-loop counts twice).
+pub(crate) fn get_weighted_degrees_in_fixed_order<T, A>(
+    graph: &Graph<T, A>,
+) -> (HashMap<T, f64>, HashMap<T, f64>)
+where
+    T: Hash + Eq + Clone + Ord + Display + Send + Sync,
+    A: Clone + Send + Sync,
+{
+    let zeros = || -> HashMap<T, f64> {
+        graph
+            .get_all_nodes()
+            .iter()
+            .map(|n| (n.name.clone(), 0.0))
+            .collect()
+    };
+    let (mut out_degree, mut in_degree) = (zeros(), zeros());
+    for edge in get_edges_in_fixed_order(graph) {
+        *out_degree.get_mut(&edge.u).unwrap() += edge.weight;
+        *in_degree.get_mut(&edge.v).unwrap() += edge.weight;
+        if !graph.specs.directed {
+            *out_degree.get_mut(&edge.v).unwrap() += edge.weight;
+            *in_degree.get_mut(&edge.u).unwrap() += edge.weight;
+        }
+    }
+    (out_degree, in_degree)
+}
+
+/// Sum of the values of `hashmap`, taken in the order of the keys.
+pub(crate) fn sum_in_key_order<T>(hashmap: &HashMap<T, f64>) -> f64
+where
+    T: Eq + Hash + Ord,
+{
+    hashmap
+        .iter()
+        .sorted_by(|a, b| a.0.cmp(b.0))
+        .map(|(_, v)| *v)
+        .sum()
 }
 
 fn convert_values_to_f64<T, A>(hashmap: HashMap<T, usize>) -> HashMap<T, f64>
